@@ -7,7 +7,11 @@ py_unquote    urllib.parse.unquote as seen from request_pkg.helpers (its C-level
               decoder + UTF-8 'replace' decoder written out in Python.
 PyJson        json as seen from body_mixin (`json_mod.loads`, C scanner): recursive-descent reader for ASCII texts
               (bytes 0x01..0x7f), any other input goes to the real json.loads.
-Each is compared with the real object on concrete inputs by `validate()`, which the harness runs at import."""
+Each is compared with the real object on concrete inputs by `validate()`, which the harness runs at import.
+
+fix_relib_optional_group   correction of CrossHair's regex model (belongs in vf/chmodels.py), checked against CPython's
+                           `re` under the tracer by `check_regex_models()` (run by the harness self-test).
+warm_symbolic_tables       builds CrossHair's Unicode tables once, before the runner forks."""
 import io
 import itertools
 import json
@@ -194,7 +198,6 @@ class ModelJSONError(ValueError):
     """what json.JSONDecodeError is to body_mixin: a ValueError"""
 
 
-_WS = (32, 9, 10, 13)
 _ESC = {34: '"', 92: "\\", 47: "/", 98: "\b", 102: "\f", 110: "\n", 114: "\r", 116: "\t"}
 
 
@@ -366,14 +369,13 @@ class PyJson:
 
 
 # ---------------------------------------------------------------------------------------------- installation
-def install(json_model):
-    """Rebind, in this process only: FormsDict factory of the request class, `urlunquote` inside request_pkg.helpers
-    and (json_model=True) `json_mod` inside body_mixin."""
-    from ombott.request_pkg import body_mixin, helpers
+def install():
+    """Rebind, in this process only: the FormsDict factory of the request class and `urlunquote` inside
+    request_pkg.helpers.  (`json_mod` inside body_mixin is set per request by the harness: PyJson or json.)"""
+    from ombott.request_pkg import helpers
     from ombott.request_pkg.request import BaseRequest
     BaseRequest._forms_factory = ListForms
     helpers.urlunquote = py_unquote
-    body_mixin.json_mod = PyJson if json_model else json
 
 
 def fix_relib_optional_group():
